@@ -61,6 +61,18 @@ PROC t1 16 - $(yes 0 | head -100001 | paste -sd, -)
 PROC t1 64 $(h 'OUTP ON;:OUTP:STAT 0
 *CLS') 4 pend=1
 
+// ALLOC (harness only)
+ALLOC RUN echo hl64 $(h '*IDN?;FAIL;NOPE;:ECHO:QUAD? -1,#13abc,"s",#HFF;:SYST:ERR?
+')|$(h 'ECHO:F64? 1.5
+*RST')
+ALLOC PROC echo 16 $(h 'ECHO:U8? 1
+FAIL:CUST
+SYST:ERR?
+') 5,5,5,5,5
+ALLOC RUN echo std -
+SELFTEST alloc
+SELFTEST alloc-loud
+
 // PARSE
 PARSE echo SYST $(h 'A;BAR
 ')
